@@ -352,11 +352,12 @@ package decimal128
 //@ func RoundingMode.reduce128
 //@ returns (rsig, rexp)
 //@ logical V real
-//@ requires V > 0 && rm <= 5 && -32000 <= exp && exp <= 32000
+//@ requires V >= 0 && (V == 0 ==> u128(sig) == 0 && trunc == 0) && rm <= 5 && -32000 <= exp && exp <= 32000
 //@ requires TH(rs(V, exp), u128(sig), trunc)
 //@ requires trunc == 1 ==> u128(sig) > M
 //@ requires trunc == -1 ==> sig[1] > 0x0019000000000000
-//@ ensures trunc >= 0 && rs(V, 0) < 0.1 ==> u128(rsig) == 0 && rexp == 0
+//@ ensures trunc >= 0 && V > 0 && rs(V, 0) < 0.1 ==> u128(rsig) == 0 && rexp == 0
+//@ ensures V == 0 ==> u128(rsig) == 0
 //@ ensures RndOK(rm, neg, rs(V, rexp), u128(rsig), rexp) || (u128(rsig) == 0 && rexp == 0 && rs(V, 0) < 0.1)
 //@ ensures exp >= 0 ==> RndOK(rm, neg, rs(V, rexp), u128(rsig), rexp)
 //@ ensures rexp > 12287 ==> 10*u128(rsig) > M
@@ -370,10 +371,10 @@ package decimal128
 //@ loop 1: decreases u128(sig)
 //@ loop 2: invariant RS(rs(V, exp), u128(sig), trunc, digit) && u128(sig) <= M && -32000 <= exp && exp <= 32007 && exp >= old(exp)
 //@ loop 2: invariant (digit != 0 || trunc != 0) ==> (u128(sig) >= B110 || exp <= 0)
-//@ loop 2: invariant (old(trunc) >= 0 ==> trunc >= 0) && (exp >= 0 && old(trunc) >= 0 ==> rs(V, exp) >= 0.1)
+//@ loop 2: invariant (old(trunc) >= 0 ==> trunc >= 0) && (exp >= 0 && old(trunc) >= 0 && V > 0 ==> rs(V, exp) >= 0.1)
 //@ loop 2: invariant old(trunc) == 0 && u128(old(sig)) <= M && old(exp) >= 0 ==> digit == 0 && trunc == 0 && sig == old(sig) && exp == old(exp)
 //@ loop 2: decreases 0 - exp
-//@ loop 3: invariant ((RS(rs(V, exp), u128(sig), trunc, digit) && (old(trunc) >= 0 ==> rs(V, exp) >= 0.1)) || (u128(sig) == 0 && digit == 0 && trunc == 0 && exp == 0 && rs(V, 0) < 0.1 && old(exp) < 0))
+//@ loop 3: invariant ((RS(rs(V, exp), u128(sig), trunc, digit) && (old(trunc) >= 0 && V > 0 ==> rs(V, exp) >= 0.1)) || (u128(sig) == 0 && digit == 0 && trunc == 0 && exp == 0 && rs(V, 0) < 0.1 && old(exp) < 0))
 //@ loop 3: invariant u128(sig) <= M && 0 <= exp && exp <= 32007
 //@ loop 3: invariant (digit != 0 || trunc != 0) ==> (u128(sig) >= B110 || exp == 0)
 //@ loop 3: invariant old(trunc) == 0 && u128(old(sig)) <= M && old(exp) >= 0 && old(exp) <= 12287 ==> digit == 0 && trunc == 0 && sig == old(sig) && exp == old(exp)
@@ -452,7 +453,7 @@ package decimal128
 //@ func RoundingMode.reduce64
 //@ returns (rsig, rexp)
 //@ logical V real
-//@ requires V > 0 && rm <= 5 && -32000 <= exp && exp <= 32000
+//@ requires V >= 0 && (V == 0 ==> u128(sig) == 0 && trunc == 0) && rm <= 5 && -32000 <= exp && exp <= 32000
 //@ requires rs(V, exp) == sig64
 //@ ensures rs(V, 0) < 0.1 ==> u128(rsig) == 0 && rexp == 0
 //@ ensures RndOK(rm, neg, rs(V, rexp), u128(rsig), rexp) || (u128(rsig) == 0 && rexp == 0 && rs(V, 0) < 0.1)
@@ -1616,7 +1617,7 @@ package decimal128
 // this contract). be(sig, n) is the big-endian value of the first n bytes. V is the magnitude
 // coefficient x 10^exp; success means the result denotes it exactly (never rounded).
 //@ func Decimal.Compose
-//@ uses rssteps=1,4,19 rsmono=0,1,36
+//@ uses rssteps=1,4,19 rsmono=0,1,36 timeout=60
 //@ returns (err)
 //@ logical V real
 //@ requires len(sig) <= 32 && V >= 0 && rs(V, exp + 6176) == be(sig, len(sig)) && exp <= 2147483600
@@ -1653,13 +1654,131 @@ package decimal128
 // contract: "limit" marks the point, and every postcondition is proved vacuous beyond it.
 // ---------------------------------------------------------------------------
 
+// pw10(n) = 10^n (a recursion on the count alone), with the facts the long division needs
+//@ lemma pw10n_pos
+//@ forall n int
+//@ induct n from 0
+//@ hyp 0 <= n
+//@ holds pw10(n) >= 1
+//@ props C03
+//@ lemma pw10n_add
+//@ forall a int, b int
+//@ induct b from 0
+//@ hyp 0 <= a && 0 <= b
+//@ holds pw10(a + b) == pw10(a) * pw10(b)
+//@ props C03
+//@ lemma pw10n_19
+//@ depth 20
+//@ forall z int
+//@ holds pw10(19) == 10000000000000000000 && pw10(4) == 10000 && pw10(1) == 10 && pw10(0) == 1
+//@ props C03
+//@ lemma pw10n_step4
+//@ depth 5
+//@ forall n int
+//@ hyp n >= 4
+//@ holds pw10(n) == 10000 * pw10(n - 4)
+//@ props C03
+//@ lemma pw10n_step1
+//@ forall n int
+//@ hyp n >= 1
+//@ holds pw10(n) == 10 * pw10(n - 1)
+//@ props C03
+// V / 10^(e+n) x 10^n = V / 10^e
+//@ lemma rs_pw10n
+//@ forall V real, e int, n int
+//@ induct n from 0
+//@ hyp 0 <= n
+//@ holds rs(V, e + n) * real(pw10(n)) == rs(V, e)
+//@ props C03
+// cancelling a positive integer factor in real inequalities
+//@ lemma real_cancel_le
+//@ forall x real, s int, p int
+//@ hyp p >= 1 && real(s * p) <= x * real(p)
+//@ holds real(s) <= x
+//@ props C03
+//@ lemma real_cancel_lt
+//@ forall x real, s int, p int
+//@ hyp p >= 1 && x * real(p) < real(s * p)
+//@ holds x < real(s)
+//@ props C03
+//@ lemma real_cancel_eq
+//@ forall x real, q int, p int
+//@ hyp p >= 1 && x * real(p) == real(q * p)
+//@ holds x == real(q)
+//@ props C03
+//@ lemma real_cancel_lt2
+//@ forall x real, s int, p int, h int
+//@ hyp p >= 1 && h == s * p
+//@ hyp x * real(p) < real(h)
+//@ holds x < real(s)
+//@ props C03
+//@ lemma real_cancel_le2
+//@ forall x real, s int, p int, h int
+//@ hyp p >= 1 && h == s * p
+//@ hyp real(h) <= x * real(p)
+//@ holds real(s) <= x
+//@ props C03
+//@ lemma real_cancel_eq_if
+//@ forall x real, s int, p int, h int, q int, g bool
+//@ hyp p >= 1 && h == s * p
+//@ hyp x * real(p) == real(q)
+//@ hyp g ==> q == h
+//@ holds g ==> x == real(s)
+//@ props C03
+//@ lemma real_cancel_gt_if
+//@ forall x real, s int, p int, h int, q int, g bool
+//@ hyp p >= 1 && h == s * p
+//@ hyp x * real(p) == real(q)
+//@ hyp g ==> q >= h + 1
+//@ holds g ==> x > real(s)
+//@ props C03
+//@ lemma int_mul_mono
+//@ forall a int, b int, d int
+//@ hyp d >= 0 && a <= b
+//@ holds a * d <= b * d
+//@ props C03
+//@ lemma int_cancel_lt
+//@ forall a int, b int, d int
+//@ hyp d >= 1 && a * d < b * d
+//@ holds a < b
+//@ props C03
+// the quotient of a Euclidean division is unique
+//@ lemma div_unique
+//@ forall a int, d int, q1 int, r1 int, q2 int
+//@ hyp d > 0
+//@ hyp a == q1 * d + r1
+//@ hyp 0 <= r1 && r1 < d
+//@ hyp q2 * d <= a
+//@ hyp a < (q2 + 1) * d
+//@ holds q1 == q2
+//@ props C03
+
 //@ func Decimal.QuoRemWithMode
-//@ uses rssteps=1,4,19 rsmono=0,1,36
+//@ uses rssteps=1,4,19 rsmono=0,1,36 timeout=60
 //@ returns (q, r)
-//@ logical Vd real, Vo real
+//@ logical Vd real, Vo real, Q int, VQ real, VR real
 //@ requires !special(d) ==> Vd >= 0 && rs(Vd, bexp(d)) == coef(d)
 //@ requires !special(o) ==> Vo >= 0 && rs(Vo, bexp(o)) == coef(o)
 //@ mention rs(Vd, bexp(o)) + rs(Vo, bexp(d))
+//@ define ED = bexp(d)
+//@ define EO = bexp(o)
+//@ define CD = coef(d)
+//@ define CO = coef(o)
+//@ define BOTH = (!special(d) && !special(o) && coef(o) != 0 && coef(d) != 0)
+//@ requires mode <= 5
+//@ define XA = (CD * pw10(ED - EO))
+//@ define YB = (CO * pw10(EO - ED))
+//@ requires BOTH ==> Q >= 0 && VQ >= 0 && rs(VQ, 6176) == real(Q)
+//@ requires BOTH && ED >= EO ==> Q * CO <= XA && XA < (Q + 1) * CO
+//@ requires BOTH && ED < EO ==> Q * YB <= CD && CD < (Q + 1) * YB
+//@ requires BOTH ==> VR >= 0
+//@ requires BOTH && ED >= EO ==> rs(VR, EO) == real(XA - Q * CO)
+//@ requires BOTH && ED < EO ==> rs(VR, ED) == real(CD - Q * YB)
+//@ ensures BOTH && !(ED < EO && Vd < Vo) ==> sign(q) == (sign(d) != sign(o)) && !isnan(q) && !special(r) && sign(r) == sign(d)
+//@ ensures BOTH && !(ED < EO && Vd < Vo) && isinf(q) ==> Ovf(mode, sign(q), rs(VQ, 12287))
+//@ ensures BOTH && !(ED < EO && Vd < Vo) && !special(q) ==> (Q == 0 && coef(q) == 0) || (Q >= 1 && RndOK(mode, sign(q), rs(VQ, bexp(q)), coef(q), bexp(q)))
+//@ ensures BOTH && ED >= EO ==> (coef(r) == 0 <==> XA == Q * CO) && (coef(r) != 0 ==> bexp(r) == EO && coef(r) == XA - Q * CO)
+//@ ensures BOTH && ED < EO && !(Vd < Vo) ==> (coef(r) == 0 <==> CD == Q * YB) && (coef(r) != 0 ==> bexp(r) == ED && coef(r) == CD - Q * YB)
 //@ ensures isnan(d) ==> q == d && r == d
 //@ ensures !isnan(d) && isnan(o) ==> q == o && r == o
 //@ ensures isinf(d) && isinf(o) ==> isnan(q) && q == r && !sign(q) && hi(q) == 0x7c00000000000000
@@ -1675,15 +1794,272 @@ package decimal128
 //@ ensures !special(d) && !special(o) && coef(o) != 0 && coef(d) == 0 ==> !special(q) && coef(q) == 0 && sign(q) == (sign(d) != sign(o)) && !special(r) && coef(r) == 0 && sign(r) == sign(d)
 //@ ensures !special(d) && !special(o) && coef(o) != 0 && coef(d) != 0 && bexp(d) < bexp(o) && Vd < Vo ==> !special(q) && coef(q) == 0 && bexp(q) == 0 && sign(q) == (sign(d) != sign(o)) && r == d
 //@ loop 1: invariant rs(Vo, bexp(d) - exp) == u128(oSig) && exp <= 0 && u128(oSig) != 0 && exp >= bexp(d) - bexp(o)
+//@ loop 1: invariant BOTH && u128(oSig) == CO * pw10(exp - (ED - EO)) && u128(dSig) == CD && dExp == ED
 //@ loop 1: decreases 0 - exp
 //@ loop 2: invariant rs(Vo, bexp(d) - exp) == u128(oSig) && exp <= 0 && u128(oSig) != 0 && exp >= bexp(d) - bexp(o)
+//@ loop 2: invariant BOTH && u128(oSig) == CO * pw10(exp - (ED - EO)) && u128(dSig) == CD && dExp == ED
 //@ loop 2: decreases 0 - exp
 //@ loop 3: invariant dExp - exp == bexp(o) && exp >= 0 && exp <= 12287
+//@ loop 3: invariant BOTH && u128(dSig) == CD * pw10((ED - EO) - exp) && (ED - EO) - exp >= 0 && u128(oSig) == CO
 //@ loop 3: decreases exp
 //@ loop 4: invariant dExp - exp == bexp(o) && exp >= 0 && exp <= 12287
+//@ loop 4: invariant BOTH && u128(dSig) == CD * pw10((ED - EO) - exp) && (ED - EO) - exp >= 0 && u128(oSig) == CO
 //@ loop 4: decreases exp
+//@ apply loop 1: pw10n_19(0)
+//@ apply loop 3: pw10n_19(0)
+//@ apply before "qexp := exp + exponentBias": pw10n_add(ite(ED >= EO, (ED - EO) - exp, 0), ite(exp >= 0, exp, 0))
 //@ assert before "return zero(d.Signbit() != o.Signbit()), d"#2: Vd < Vo
-//@ limit before "qexp := exp + exponentBias"
+//@ assert before "qexp := exp + exponentBias": BOTH && exp >= 0 && dExp - exp == ite(ED >= EO, EO, ED) && dExp <= 12287
+//@ assert before "qexp := exp + exponentBias": (ED >= EO ==> u128(oSig) == CO) && (ED < EO ==> u128(oSig) == YB)
+//@ assert before "qexp := exp + exponentBias": ED >= EO ==> u128(dSig) == CD * pw10((ED - EO) - exp) && (ED - EO) - exp >= 0
+//@ assert before "qexp := exp + exponentBias": ED < EO ==> u128(dSig) == CD && exp == 0
+//@ assert before "qexp := exp + exponentBias": ED >= EO ==> pw10((ED - EO) - exp) * pw10(exp) == pw10(ED - EO)
+//@ assert before "qexp := exp + exponentBias": ED >= EO ==> u128(dSig) * pw10(exp) == CD * (pw10((ED - EO) - exp) * pw10(exp))
+//@ assert before "qexp := exp + exponentBias": (ED >= EO ==> u128(dSig) * pw10(exp) == XA) && (ED < EO ==> u128(dSig) * pw10(exp) == CD)
+//@ assert before "qexp := exp + exponentBias": u128(dSig) >= 1 && u128(oSig) >= 1
+//@ assert before "trunc := int8(0)": PE == pw10(exp)
+//@ assert before "trunc := int8(0)": TK * PE == NV0
+//@ assert before "trunc := int8(0)": TK >= 1 && PE >= 1
+//@ assert before "trunc := int8(0)": QC == u128(sig) && qexp == exp + 6176
+//@ assert before "trunc := int8(0)": TK == QC * D0 + u128(rem) && u128(rem) < D0
+//@ ghost D0 int = 0
+//@ ghost NV0 int = 0
+//@ ghost MM int = 0
+//@ ghost TK int = 0
+//@ ghost QC int = 0
+//@ ghost PN int = 1
+//@ ghost LO int = 0
+//@ ghost HI int = 0
+//@ ghost HP int = 0
+//@ ghost LP int = 0
+//@ ghost PE int = 1
+//@ ghost PEP int = 1
+//@ ghost before "qexp := exp + exponentBias": D0 = u128(oSig)
+//@ ghost before "qexp := exp + exponentBias": NV0 = u128(dSig) * pw10(exp)
+//@ ghost before "qexp := exp + exponentBias": MM = dExp - exp
+//@ ghost before "qexp := exp + exponentBias": TK = u128(dSig)
+//@ ghost before "qexp := exp + exponentBias": PE = pw10(exp)
+//@ ghost before "var carry uint64": QC = sig64
+//@ ghost after "sig, rem = dSig.div(oSig)": QC = u128(sig)
+//@ ghost before "rem64 *= 10_000": PEP = PE
+//@ ghost before "rem64 *= 10_000": PE = pw10(exp - 4)
+//@ ghost before "rem64 *= 10_000": TK = TK * 10000
+//@ ghost before "rem64 *= 10_000": QC = QC * 10000
+//@ ghost before "rem64 *= 10"#2: PEP = PE
+//@ ghost before "rem64 *= 10"#2: PE = pw10(exp - 1)
+//@ ghost before "rem64 *= 10"#2: TK = TK * 10
+//@ ghost before "rem64 *= 10"#2: QC = QC * 10
+//@ ghost before "if carry != 0 {": QC = QC + tmp
+//@ ghost before "trunc := int8(0)": LO = QC
+//@ ghost before "trunc := int8(0)": HI = QC + 1
+//@ ghost before "rem = rem.mul64(10_000)"#1: PEP = PE
+//@ ghost before "rem = rem.mul64(10_000)"#1: PE = pw10(exp - 4)
+//@ ghost before "rem = rem.mul64(10_000)"#1: TK = TK * 10000
+//@ ghost before "rem = rem.mul64(10_000)"#1: QC = QC * 10000
+//@ ghost before "rem = rem.mul64(10)"#1: PEP = PE
+//@ ghost before "rem = rem.mul64(10)"#1: PE = pw10(exp - 1)
+//@ ghost before "rem = rem.mul64(10)"#1: TK = TK * 10
+//@ ghost before "rem = rem.mul64(10)"#1: QC = QC * 10
+//@ ghost before "sig192 := sig.add(tmp)": QC = QC + u128(tmp)
+//@ ghost before "sig192 := sig.add(tmp)": LO = QC
+//@ ghost before "sig192 := sig.add(tmp)": HI = QC + 1
+//@ ghost before "if rem192 != 0 {": PN = PN * 10
+//@ ghost before "if rem192 != 0 {": HP = HI
+//@ ghost before "if rem192 != 0 {": LP = LO
+//@ ghost before "if rem192 != 0 {": LO = u192(sig192) * PN
+//@ ghost before "if rem192 != 0 {": HI = LO + PN
+//@ ghost before "rem = rem.mul64(10_000)"#2: PEP = PE
+//@ ghost before "rem = rem.mul64(10_000)"#2: PE = pw10(exp - 4)
+//@ ghost before "rem = rem.mul64(10_000)"#2: TK = TK * 10000
+//@ ghost before "rem = rem.mul64(10_000)"#2: QC = QC * 10000
+//@ ghost before "rem = rem.mul64(10_000)"#2: LO = LO * 10000
+//@ ghost before "rem = rem.mul64(10_000)"#2: HI = HI * 10000
+//@ ghost before "rem = rem.mul64(10_000)"#2: PN = PN * 10000
+//@ ghost before "rem = rem.mul64(10)"#2: PEP = PE
+//@ ghost before "rem = rem.mul64(10)"#2: PE = pw10(exp - 1)
+//@ ghost before "rem = rem.mul64(10)"#2: TK = TK * 10
+//@ ghost before "rem = rem.mul64(10)"#2: QC = QC * 10
+//@ ghost before "rem = rem.mul64(10)"#2: LO = LO * 10
+//@ ghost before "rem = rem.mul64(10)"#2: HI = HI * 10
+//@ ghost before "rem = rem.mul64(10)"#2: PN = PN * 10
+//@ ghost before "if tmp[0]|tmp[1] != 0 {": QC = QC + u128(tmp)
+//@ loop 5: invariant BOTH && u128(oSig) == D0 && (ED >= EO ==> D0 == CO && NV0 == XA) && (ED < EO ==> D0 == YB && NV0 == CD) && D0 >= 1
+//@ loop 5: invariant exp >= 0 && rexp - exp == MM && MM == ite(ED >= EO, EO, ED) && dExp <= 12287 && rexp <= dExp && exp <= 12287 && qexp <= 18500
+//@ loop 5: invariant PE == pw10(exp)
+//@ loop 5: invariant TK * PE == NV0
+//@ loop 5: invariant TK >= 1 && PE >= 1
+//@ loop 5: invariant oSig[1] == 0 && QC == sig64 && PN == 1 && qexp == exp + 6176 && carry == 0
+//@ loop 5: invariant TK == QC * D0 + rem64
+//@ loop 5: invariant rem64 < D0
+//@ loop 6: invariant BOTH && u128(oSig) == D0 && (ED >= EO ==> D0 == CO && NV0 == XA) && (ED < EO ==> D0 == YB && NV0 == CD) && D0 >= 1
+//@ loop 6: invariant exp >= 0 && rexp - exp == MM && MM == ite(ED >= EO, EO, ED) && dExp <= 12287 && rexp <= dExp && exp <= 12287 && qexp <= 18500
+//@ loop 6: invariant PE == pw10(exp)
+//@ loop 6: invariant TK * PE == NV0
+//@ loop 6: invariant TK >= 1 && PE >= 1
+//@ loop 6: invariant oSig[1] == 0 && QC == sig64 && PN == 1 && qexp == exp + 6176 && carry == 0
+//@ loop 6: invariant TK == QC * D0 + rem64
+//@ loop 7: invariant BOTH && u128(oSig) == D0 && (ED >= EO ==> D0 == CO && NV0 == XA) && (ED < EO ==> D0 == YB && NV0 == CD) && D0 >= 1
+//@ loop 7: invariant exp >= 0 && rexp - exp == MM && MM == ite(ED >= EO, EO, ED) && dExp <= 12287 && rexp <= dExp && exp <= 12287 && qexp <= 18500
+//@ loop 7: invariant PE == pw10(exp)
+//@ loop 7: invariant TK * PE == NV0
+//@ loop 7: invariant TK >= 1 && PE >= 1
+//@ loop 7: invariant oSig[1] == 0 && QC == sig64 && PN == 1 && qexp == exp + 6176 && carry == 0
+//@ loop 7: invariant TK == QC * D0 + rem64
+//@ loop 8: invariant BOTH && u128(oSig) == D0 && (ED >= EO ==> D0 == CO && NV0 == XA) && (ED < EO ==> D0 == YB && NV0 == CD) && D0 >= 1
+//@ loop 8: invariant exp >= 0 && rexp - exp == MM && MM == ite(ED >= EO, EO, ED) && dExp <= 12287 && rexp <= dExp && exp <= 12287 && qexp <= 18500
+//@ loop 8: invariant PE == pw10(exp)
+//@ loop 8: invariant TK * PE == NV0
+//@ loop 8: invariant TK >= 1 && PE >= 1
+//@ loop 8: invariant LO == u128(sig) * PN && HI == LO + PN && PN >= 1
+//@ loop 8: invariant LO <= QC
+//@ loop 8: invariant TK < HI * D0
+//@ loop 8: invariant (trunc == 0 ==> QC == LO) && (trunc != 0 ==> QC >= LO + 1) && (trunc == 0 || trunc == 1)
+//@ loop 8: invariant PN == pw10(qexp - 6176 - exp) && qexp - 6176 - exp >= 0
+//@ loop 8: invariant TK == QC * D0 + u128(rem)
+//@ loop 8: invariant u128(rem) < D0
+//@ loop 8: invariant qexp - 6176 - exp >= 1 ==> sig[1] > 0x00027fffffffffff
+//@ loop 9: invariant BOTH && u128(oSig) == D0 && (ED >= EO ==> D0 == CO && NV0 == XA) && (ED < EO ==> D0 == YB && NV0 == CD) && D0 >= 1
+//@ loop 9: invariant exp >= 0 && rexp - exp == MM && MM == ite(ED >= EO, EO, ED) && dExp <= 12287 && rexp <= dExp && exp <= 12287 && qexp <= 18500
+//@ loop 9: invariant PE == pw10(exp)
+//@ loop 9: invariant TK * PE == NV0
+//@ loop 9: invariant TK >= 1 && PE >= 1
+//@ loop 9: invariant QC == u128(sig) && PN == 1 && qexp == exp + 6176 && trunc == 0
+//@ loop 9: invariant TK == QC * D0 + u128(rem)
+//@ loop 10: invariant BOTH && u128(oSig) == D0 && (ED >= EO ==> D0 == CO && NV0 == XA) && (ED < EO ==> D0 == YB && NV0 == CD) && D0 >= 1
+//@ loop 10: invariant exp >= 0 && rexp - exp == MM && MM == ite(ED >= EO, EO, ED) && dExp <= 12287 && rexp <= dExp && exp <= 12287 && qexp <= 18500
+//@ loop 10: invariant PE == pw10(exp)
+//@ loop 10: invariant TK * PE == NV0
+//@ loop 10: invariant TK >= 1 && PE >= 1
+//@ loop 10: invariant QC == u128(sig) && PN == 1 && qexp == exp + 6176 && trunc == 0
+//@ loop 10: invariant TK == QC * D0 + u128(rem)
+//@ loop 11: invariant BOTH && u128(oSig) == D0 && (ED >= EO ==> D0 == CO && NV0 == XA) && (ED < EO ==> D0 == YB && NV0 == CD) && D0 >= 1
+//@ loop 11: invariant exp >= 0 && rexp - exp == MM && MM == ite(ED >= EO, EO, ED) && dExp <= 12287 && rexp <= dExp && exp <= 12287 && qexp <= 18500
+//@ loop 11: invariant PE == pw10(exp)
+//@ loop 11: invariant TK * PE == NV0
+//@ loop 11: invariant TK >= 1 && PE >= 1
+//@ loop 11: invariant LO == u192(sig192) * PN && HI == LO + PN && PN >= 1
+//@ loop 11: invariant LO <= QC
+//@ loop 11: invariant TK < HI * D0
+//@ loop 11: invariant (trunc == 0 ==> QC == LO) && (trunc != 0 ==> QC >= LO + 1) && (trunc == 0 || trunc == 1)
+//@ loop 11: invariant PN == pw10(qexp - 6176 - exp) && qexp - 6176 - exp >= 0
+//@ loop 11: invariant TK == QC * D0 + u128(rem)
+//@ loop 11: invariant u128(rem) < D0
+//@ loop 11: invariant qexp - 6176 - exp >= 1 ==> u192(sig192) >= 34028236692093846346337460743176821145
+//@ loop 11: invariant (qexp == exp + 6176 && u192(sig192) < 680564733841876926926749214863536422912) || (qexp == exp + 6177 && sig192[2] == 0)
+//@ loop 12: invariant BOTH && u128(oSig) == D0 && (ED >= EO ==> D0 == CO && NV0 == XA) && (ED < EO ==> D0 == YB && NV0 == CD) && D0 >= 1
+//@ loop 12: invariant exp >= 0 && rexp - exp == MM && MM == ite(ED >= EO, EO, ED) && dExp <= 12287 && rexp <= dExp && exp <= 12287 && qexp <= 18500
+//@ loop 12: invariant PE == pw10(exp)
+//@ loop 12: invariant TK * PE == NV0
+//@ loop 12: invariant TK >= 1 && PE >= 1
+//@ loop 12: invariant LO == u128(sig) * PN && HI == LO + PN && PN >= 1
+//@ loop 12: invariant LO <= QC
+//@ loop 12: invariant TK < HI * D0
+//@ loop 12: invariant (trunc == 0 ==> QC == LO) && (trunc != 0 ==> QC >= LO + 1) && (trunc == 0 || trunc == 1)
+//@ loop 12: invariant PN == pw10(qexp - 6176 - exp) && qexp - 6176 - exp >= 0
+//@ loop 12: invariant TK == QC * D0 + u128(rem)
+//@ loop 12: invariant u128(rem) < D0
+//@ loop 13: invariant BOTH && u128(oSig) == D0 && (ED >= EO ==> D0 == CO && NV0 == XA) && (ED < EO ==> D0 == YB && NV0 == CD) && D0 >= 1
+//@ loop 13: invariant exp >= 0 && rexp - exp == MM && MM == ite(ED >= EO, EO, ED) && dExp <= 12287 && rexp <= dExp && exp <= 12287 && qexp <= 18500
+//@ loop 13: invariant PE == pw10(exp)
+//@ loop 13: invariant TK * PE == NV0
+//@ loop 13: invariant TK >= 1 && PE >= 1
+//@ loop 13: invariant LO == u128(sig) * PN && HI == LO + PN && PN >= 1
+//@ loop 13: invariant LO <= QC
+//@ loop 13: invariant TK < HI * D0
+//@ loop 13: invariant (trunc == 0 ==> QC == LO) && (trunc != 0 ==> QC >= LO + 1) && (trunc == 0 || trunc == 1)
+//@ loop 13: invariant PN == pw10(qexp - 6176 - exp) && qexp - 6176 - exp >= 0
+//@ loop 13: invariant TK == QC * D0 + u128(rem)
+//@ loop 14: invariant BOTH && u128(oSig) == D0 && (ED >= EO ==> D0 == CO && NV0 == XA) && (ED < EO ==> D0 == YB && NV0 == CD) && D0 >= 1
+//@ loop 14: invariant exp >= 0 && rexp - exp == MM && MM == ite(ED >= EO, EO, ED) && dExp <= 12287 && rexp <= dExp && exp <= 12287 && qexp <= 18500
+//@ loop 14: invariant PE == pw10(exp)
+//@ loop 14: invariant TK * PE == NV0
+//@ loop 14: invariant TK >= 1 && PE >= 1
+//@ loop 14: invariant LO == u128(sig) * PN && HI == LO + PN && PN >= 1
+//@ loop 14: invariant LO <= QC
+//@ loop 14: invariant TK < HI * D0
+//@ loop 14: invariant (trunc == 0 ==> QC == LO) && (trunc != 0 ==> QC >= LO + 1) && (trunc == 0 || trunc == 1)
+//@ loop 14: invariant PN == pw10(qexp - 6176 - exp) && qexp - 6176 - exp >= 0
+//@ loop 14: invariant TK == QC * D0 + u128(rem)
+//@ waive cover at "for exp > 0 && rem64 != 0 && sig64 <= 0x18ff_ffff_ffff_ffff {": unreachable: after the alignment the 64-bit path is entered with exp == 0 only (a dividend whose high word is zero has been scaled until exp == 0); the probe proves it
+//@ waive cover at "for exp >= 4 && rem64 <= 0x0002_7fff_ffff_ffff && sig64 <= 0x0002_7fff_ffff_ffff {": inside the unreachable loop above
+//@ waive cover at "for exp > 0 && rem64 <= 0x18ff_ffff_ffff_ffff && sig64 <= 0x18ff_ffff_ffff_ffff {": inside the unreachable loop above
+//@ apply before "qexp := exp + exponentBias": pw10n_pos(ite(exp >= 0, exp, 0))
+//@ apply before "qexp := exp + exponentBias": pw10n_pos(ite(ED >= EO, ED - EO, EO - ED))
+//@ assert before "if rem192 != 0 {": LO <= LP
+//@ assert before "if rem192 != 0 {": HP <= HI
+//@ apply before "if rem192 != 0 {": int_mul_mono(HP, HI, D0)
+//@ assert before "if rem192 != 0 {": HP * D0 <= HI * D0
+//@ loop 8: isolate
+//@ loop 9: isolate
+//@ loop 10: isolate
+//@ loop 11: isolate
+//@ loop 12: isolate
+//@ loop 13: isolate
+//@ loop 14: isolate
+//@ apply before "rem = rem.mul64(10_000)"#1: pw10n_step4(exp)
+//@ apply before "rem = rem.mul64(10_000)"#2: pw10n_step4(exp)
+//@ apply before "rem = rem.mul64(10)"#1: pw10n_step1(exp)
+//@ apply before "rem = rem.mul64(10)"#2: pw10n_step1(exp)
+//@ apply before "rem64 *= 10_000": pw10n_step4(exp)
+//@ apply before "rem64 *= 10"#2: pw10n_step1(exp)
+//@ apply before "rem = rem.mul64(10_000)"#2: pw10n_step4(qexp - 6176 - exp + 4)
+//@ apply before "rem = rem.mul64(10)"#2: pw10n_step1(qexp - 6176 - exp + 1)
+//@ apply before "oSig = oSig.mul64(10_000)": pw10n_step4(exp - (ED - EO) + 4)
+//@ apply before "dSig = dSig.mul64(10_000)": pw10n_step4((ED - EO) - exp + 4)
+//@ loop 8: invariant trunc != 0 ==> sig[1] > 0x00027fffffffffff
+//@ loop 12: invariant trunc != 0 ==> sig[1] > 0x00027fffffffffff
+//@ loop 13: invariant trunc != 0 ==> sig[1] > 0x00027fffffffffff
+//@ loop 14: invariant trunc != 0 ==> sig[1] > 0x00027fffffffffff
+//@ loop 12: invariant (exp > 0 && u128(rem) != 0) ==> sig[1] > 0x00027fffffffffff
+//@ loop 13: invariant sig[1] > 0x00027fffffffffff
+//@ loop 14: invariant sig[1] > 0x00027fffffffffff
+//@ assert before "qneg := d.Signbit() != o.Signbit()": exp == 0 || u128(rem) == 0
+//@ assert before "qneg := d.Signbit() != o.Signbit()": u128(rem) * PE < D0 && u128(rem) * PE >= 0
+//@ assert before "qneg := d.Signbit() != o.Signbit()": TK * PE == (QC * D0 + u128(rem)) * PE
+//@ assert before "qneg := d.Signbit() != o.Signbit()": NV0 == (QC * PE) * D0 + u128(rem) * PE
+//@ apply before "qneg := d.Signbit() != o.Signbit()": div_unique(NV0, D0, QC * PE, u128(rem) * PE, Q)
+//@ assert before "qneg := d.Signbit() != o.Signbit()": Q == QC * PE
+//@ assert before "qneg := d.Signbit() != o.Signbit()": NV0 - Q * D0 == u128(rem) * PE
+//@ assert before "qneg := d.Signbit() != o.Signbit()": ED >= EO ==> Q * D0 == Q * CO && NV0 == XA
+//@ assert before "qneg := d.Signbit() != o.Signbit()": ED >= EO ==> XA - Q * CO == u128(rem) * PE
+//@ assert before "qneg := d.Signbit() != o.Signbit()": ED < EO ==> Q * D0 == Q * YB && NV0 == CD
+//@ assert before "qneg := d.Signbit() != o.Signbit()": ED < EO ==> CD - Q * YB == u128(rem) * PE
+//@ assert before "qneg := d.Signbit() != o.Signbit()": QC * D0 < HI * D0
+//@ apply before "qneg := d.Signbit() != o.Signbit()": int_cancel_lt(QC, HI, D0)
+//@ assert before "qneg := d.Signbit() != o.Signbit()": QC < HI
+//@ apply before "qneg := d.Signbit() != o.Signbit()": rs_pw10n(VQ, 6176, exp)
+//@ assert before "qneg := d.Signbit() != o.Signbit()": rs(VQ, 6176 + exp) * real(PE) == real(QC * PE)
+//@ apply before "qneg := d.Signbit() != o.Signbit()": real_cancel_eq(rs(VQ, 6176 + exp), QC, PE)
+//@ assert before "qneg := d.Signbit() != o.Signbit()": rs(VQ, 6176 + exp) == real(QC)
+//@ apply before "qneg := d.Signbit() != o.Signbit()": rs_pw10n(VQ, 6176 + exp, qexp - 6176 - exp)
+//@ assert before "qneg := d.Signbit() != o.Signbit()": rs(VQ, qexp) * real(PN) == real(QC)
+//@ assert before "qneg := d.Signbit() != o.Signbit()": real(LO) <= rs(VQ, qexp) * real(PN) && rs(VQ, qexp) * real(PN) < real(HI)
+//@ assert before "qneg := d.Signbit() != o.Signbit()": LO == u128(sig) * PN && HI == (u128(sig) + 1) * PN
+//@ apply before "qneg := d.Signbit() != o.Signbit()": real_cancel_le2(rs(VQ, qexp), u128(sig), PN, LO)
+//@ apply before "qneg := d.Signbit() != o.Signbit()": real_cancel_lt2(rs(VQ, qexp), u128(sig) + 1, PN, HI)
+//@ assert before "qneg := d.Signbit() != o.Signbit()": real(u128(sig)) <= rs(VQ, qexp) && rs(VQ, qexp) < real(u128(sig) + 1)
+//@ apply before "qneg := d.Signbit() != o.Signbit()": real_cancel_eq_if(rs(VQ, qexp), u128(sig), PN, LO, QC, trunc == 0)
+//@ assert before "qneg := d.Signbit() != o.Signbit()": trunc == 0 ==> rs(VQ, qexp) == real(u128(sig))
+//@ apply before "qneg := d.Signbit() != o.Signbit()": real_cancel_gt_if(rs(VQ, qexp), u128(sig), PN, LO, QC, trunc != 0)
+//@ assert before "qneg := d.Signbit() != o.Signbit()": trunc != 0 ==> rs(VQ, qexp) > real(u128(sig))
+//@ assert before "qneg := d.Signbit() != o.Signbit()": VQ >= 0 && (VQ == 0 ==> u128(sig) == 0 && trunc == 0) && (trunc != 0 ==> u128(sig) > M)
+//@ assert before "qneg := d.Signbit() != o.Signbit()": u128(rem) <= M && 0 <= rexp && rexp <= 12287
+//@ assert before "qneg := d.Signbit() != o.Signbit()": exp == 0 ==> PE == 1 && rexp == MM
+//@ assert before "qneg := d.Signbit() != o.Signbit()": rs(VR, MM) == real(u128(rem) * PE)
+//@ assert before "qneg := d.Signbit() != o.Signbit()": exp == 0 ==> rs(VR, rexp) == real(u128(rem))
+//@ assert before "qneg := d.Signbit() != o.Signbit()": u128(rem) == 0 ==> rs(VR, MM) == 0 && VR == 0
+//@ assert before "qneg := d.Signbit() != o.Signbit()": rs(VR, rexp) == real(u128(rem)) && (VR == 0 ==> u128(rem) == 0)
+//@ call RoundingMode.reduce128#1: V = VQ
+//@ call RoundingMode.reduce128#2: V = VR
+//@ waive call-requires at "quo := compose(qneg, qsig, qexp)": compose is also called when the quotient overflowed (qexp > maxBiasedExponent); that result is discarded on the next line
+//@ assert before "rem64 *= 10_000": PEP == 10000 * PE
+//@ assert before "rem64 *= 10"#2: PEP == 10 * PE
+//@ assert before "rem = rem.mul64(10_000)"#1: PEP == 10000 * PE
+//@ assert before "rem = rem.mul64(10)"#1: PEP == 10 * PE
+//@ assert before "rem = rem.mul64(10_000)"#2: PEP == 10000 * PE
+//@ assert before "rem = rem.mul64(10)"#2: PEP == 10 * PE
+//@ assert after "sig, rem = dSig.div(oSig)": TK * PE == NV0 && PE == pw10(exp)
+//@ assert after "rem = uint128{rem64, 0}": TK * PE == NV0 && PE == pw10(exp)
 //@ props C03 C15 C20
 
 // ---------------------------------------------------------------------------
